@@ -235,6 +235,29 @@ def replay_only_verus(replay_only):
     return replay_only is not None and not str(replay_only).startswith('kani::')
 
 
+def derived_codecs():
+    """types of the library (outside the `train` feature) whose bincode codec is `#[derive(Decode, Encode)]`: the codec unit ASSUMES
+    those generated impls to be inverse of each other. A type that loses the derive has a hand-written codec that is not under
+    contract (unless it is one of the codecs the codec unit verifies), so the round-trip properties are then undecided for it."""
+    out = {}
+    root = os.path.join(gen.REPO, 'vibrato', 'src')
+    for dp, dn, fn in os.walk(root):
+        if os.sep + 'trainer' in dp:
+            continue
+        for f in fn:
+            if not f.endswith('.rs') or f == 'trainer.rs':
+                continue
+            try:
+                t = open(os.path.join(dp, f), encoding='utf-8').read()
+            except OSError:
+                continue
+            for m in re.finditer(r'#\[derive\(([^)]*)\)\](?:\s*#\[[^\]]*\])*\s*(?:pub(?:\([^)]*\))?\s+)?(?:struct|enum)\s+(\w+)', t):
+                ds = set(x.strip().split('::')[-1] for x in m.group(1).split(','))
+                if 'Decode' in ds and 'Encode' in ds:
+                    out[m.group(2)] = os.path.relpath(os.path.join(dp, f), gen.REPO)
+    return out
+
+
 def check_property(pid, tier, seed, replay_only=None):
     t0 = time.time()
     os.environ['VERIF_PID'] = pid      # gen.expand_known_findings: assert for the property a finding violates, assume elsewhere
@@ -560,6 +583,13 @@ def check_property(pid, tier, seed, replay_only=None):
     grown = [t for t in trusted if bt and t not in bt]
     if grown:
         undecided.append('trusted base grew: ' + '; '.join(grown[:3]))
+    # the codec unit assumes the derive-generated bincode impls; a type that no longer derives them has an unverified hand-written codec
+    if 'codec' in units and base.get('derived_codecs'):
+        cur_dc = derived_codecs()
+        lost = sorted(t for t in base['derived_codecs'] if t not in cur_dc)
+        if lost:
+            undecided.append('the bincode codec of %s is no longer derive-generated (%s): the hand-written impl is not under contract, so '
+                             'the image round trip is not decided for it' % (', '.join(lost), base['derived_codecs'][lost[0]]))
 
     rc = 0
     replay_paths = []
@@ -661,7 +691,7 @@ def rebaseline():
     outdir = os.path.join(VERIF, 'build', '_baseline')
     shutil.rmtree(outdir, ignore_errors=True)
     os.makedirs(outdir, exist_ok=True)
-    base = {'units': {}, 'trusted': {}, 'repo': repo_state()}
+    base = {'units': {}, 'trusted': {}, 'repo': repo_state(), 'derived_codecs': derived_codecs()}
     bad = 0
     units = all_units()
     with concurrent.futures.ThreadPoolExecutor(max_workers=8) as ex:
